@@ -10,14 +10,16 @@ namespace TE.C12
 open TE TE.Plumb
 
 theorem C12_plumb_perm {A C R : Type} (O : Ops A C) (P : ClassPlumb) (g : View A C → Except Err R)
+    (hb : Basic P = true)
     (l l' : List (Contrib A C)) (hp : l.Perm l') (s s' : St A C)
     (he : eval (plumbImpl O P g) (single l) = .ok s) (he' : eval (plumbImpl O P g) (single l') = .ok s') :
     s.num = s'.num ∧ ∀ f, (s.lst f).Perm (s'.lst f) := by
+  simp only [Basic, Bool.and_eq_true, Bool.not_eq_true'] at hb
   rw [eval_single] at he he'
   simp only [Except.ok.injEq] at he he'
   subst he; subst he'
   refine ⟨funext fun f => ?_, fun f => ?_⟩
-  · rw [foldl_upd_num, foldl_upd_num]
+  · rw [foldl_upd_num O _ hb.1 hb.2, foldl_upd_num O _ hb.1 hb.2]
     rcases numOf P.fields f with _ | ⟨u, m, src⟩
     · rfl
     · exact foldl_op_perm O u (fun b => b.num f) hp _
@@ -26,13 +28,47 @@ theorem C12_plumb_perm {A C R : Type} (O : Ops A C) (P : ClassPlumb) (g : View A
     · exact List.Perm.refl _
     · exact List.Perm.append_left _ (hp.map _)
 
+/-- the same for every WELL-FORMED row, including those with an adoption branch (for shape-coherent batches) and
+    with a derived state (for a non-empty stream): the numeric states do not depend on the order of the batches. -/
+theorem C12_plumb_perm_wf {A C R : Type} (O : Ops A C) (P : ClassPlumb) (g : View A C → Except Err R)
+    (hwf : WF P = true)
+    (l l' : List (Contrib A C)) (hp : l.Perm l') (s s' : St A C)
+    (he : eval (plumbImpl O P g) (single l) = .ok s) (he' : eval (plumbImpl O P g) (single l') = .ok s')
+    (hc : hasAdopt P.fields = true → Coh O l) (hd : hasDer P.fields = true → l ≠ []) :
+    s.num = s'.num ∧ ∀ f, (s.lst f).Perm (s'.lst f) := by
+  have hall : P.fields.all (wfField P.fields) = true := by
+    simp only [WF, Bool.and_eq_true] at hwf; exact hwf.2
+  have r := plumb_refines O P g hwf (single l) s he (by rw [flatten_single]; exact hc)
+  have r' := plumb_refines O P g hwf (single l') s' he' (by rw [flatten_single]; exact fun h => (hc h).perm O hp)
+  rw [flatten_single] at r r'
+  refine ⟨funext fun f => ?_, fun f => ?_⟩
+  · have hcan := congrFun (canon_num_perm O P.fields hp)
+    rcases hf : effDer P.fields f with _ | ⟨a, b, iu, im, ae⟩
+    · rw [r.1.1 f hf, r'.1.1 f hf, hcan f]
+    · obtain ⟨-, hdf⟩ := effDer_some hf
+      have hne := hd (hasDer_of hdf)
+      have hne' : l' ≠ [] := fun e => hne (by simpa [e] using hp)
+      obtain ⟨-, -, hna, hnb⟩ := wf_der hall hdf
+      have ea := effDer_of_num hna
+      have eb := effDer_of_num hnb
+      rw [r.2 f a b iu im ae hf hne, r'.2 f a b iu im ae hf hne', r.1.1 a ea, r'.1.1 a ea, r.1.1 b eb, r'.1.1 b eb,
+        hcan a, hcan b]
+  · rw [eval_single] at he he'
+    simp only [Except.ok.injEq] at he he'
+    subst he; subst he'
+    rw [foldl_upd_lst, foldl_upd_lst]
+    rcases lstOf P.fields f with _ | x
+    · exact List.Perm.refl _
+    · exact List.Perm.append_left _ (hp.map _)
+
 /-- a class all of whose states are numeric gives the same result for every order of the batches. -/
 theorem C12_plumb_numeric_order_free {A C R : Type} (O : Ops A C) (P : ClassPlumb) (g : View A C → Except Err R)
-    (hnum : P.fields.all (fun f => match f with | .num .. => true | .lst .. => false) = true)
+    (hb : Basic P = true)
+    (hnum : P.fields.all (fun f => match f with | .lst .. => false | _ => true) = true)
     (l l' : List (Contrib A C)) (hp : l.Perm l') (s s' : St A C)
     (he : eval (plumbImpl O P g) (single l) = .ok s) (he' : eval (plumbImpl O P g) (single l') = .ok s') :
     (plumbImpl O P g).out s = (plumbImpl O P g).out s' := by
-  have hn := (C12_plumb_perm O P g l l' hp s s' he he').1
+  have hn := (C12_plumb_perm O P g hb l l' hp s s' he he').1
   rw [eval_single] at he he'
   simp only [Except.ok.injEq] at he he'
   have hl : ∀ f, lstOf P.fields f = none := by
@@ -43,8 +79,8 @@ theorem C12_plumb_numeric_order_free {A C R : Type} (O : Ops A C) (P : ClassPlum
     | cons x rest ih =>
       simp only [List.all_cons, Bool.and_eq_true] at hnum
       cases x with
-      | num n u m sc du => simpa [lstOf] using ih hnum.2
       | lst n sc gd d rd raw => simp at hnum
+      | _ => simpa [lstOf] using ih hnum.2
   have hls : s.lst = s'.lst := by
     subst he; subst he'
     funext f
@@ -54,8 +90,8 @@ theorem C12_plumb_numeric_order_free {A C R : Type} (O : Ops A C) (P : ClassPlum
 
 /-- the generated rows that consist of numeric states only (their order-freeness needs nothing else). -/
 theorem C12_plumb_numeric_rows :
-    ((Gen.classPlumb.filter fun P => P.unsupported.isNone && !P.fields.isEmpty &&
-        P.fields.all (fun f => match f with | .num .. => true | .lst .. => false)).length ≥ 28) := by
+    ((Gen.classPlumb.filter fun P => P.unsupported.isNone && !P.fields.isEmpty && Basic P &&
+        P.fields.all (fun f => match f with | .lst .. => false | _ => true)).length ≥ 28) := by
   decide +kernel
 
 end TE.C12
